@@ -83,6 +83,10 @@ def run(ctx):
         for n in walk_no_nested(f.node):
             if isinstance(n, ast.Compare) and len(n.ops) == 1 and isinstance(n.left, ast.Name) and n.left.id == "code":
                 c = n.comparators[0]
+                partial = any(isinstance(x, ast.Call) and call_name(x) == R.sender.name and any(k.arg == "nblines" for k in x.keywords)
+                              for x in walk_no_nested(f.node))
+                if isinstance(c, ast.Constant) and c.value is None and partial and isinstance(n.ops[0], (ast.Is, ast.IsNot)):
+                    continue  # a reply read line by line (nblines): no status yet
                 if isinstance(c, ast.Constant) and c.value not in ("OK", "NO"):
                     ctx.violation("Q1", f, "odd-status-constant:%r" % (c.value,), "status code compared with %r (sender codes are the "
                                   "str 'OK'/'NO')" % (c.value,), node=n)
@@ -207,6 +211,8 @@ def run(ctx):
 
     # ---- Q7 ----------------------------------------------------------------------
     q7(ctx, R)
+    q9(ctx, R)
+    q10(ctx, R)
     # a reply that is cut differently by the network must still end at its own status line (M1-M6 of C05)
     from .c05 import reader_rules
     reader_rules(ctx, R)
@@ -273,10 +279,10 @@ def q34(ctx, R):
         # decoded in place: the tail is the variable the error pattern is applied to
         text_param = None
         for c in walk_no_nested(ep.node):
-            if isinstance(c, ast.Call) and isinstance(c.func, ast.Attribute) and c.func.attr == "match" and c.args and isinstance(c.args[0], ast.Name):
+            if isinstance(c, ast.Call) and isinstance(c.func, ast.Attribute) and c.func.attr == "match" and c.args:
                 pr = R.pattern_of(c.func.value, ep)
                 if pr and proto_kind(pr[1]) not in ("size", "status", "active"):
-                    text_param = c.args[0].id
+                    text_param = norm(c.args[0])  # a variable, or the expression for the text after the status (m.group(2))
     if text_param is None:
         raise AnalysisError("Q4", "error parser takes no text parameter")
     T = rx.Pattern(ms_spec.NO_TAIL)
@@ -296,7 +302,7 @@ def q34(ctx, R):
             if isinstance(n, ast.Assign) and isinstance(n.value, ast.Call) and isinstance(n.value.func, ast.Attribute) \
                     and n.value.func.attr == "match" and n.lineno < r.lineno:
                 pr = R.pattern_of(n.value.func.value, ep)
-                if pr and n.value.args and isinstance(n.value.args[0], ast.Name) and n.value.args[0].id == text_param:
+                if pr and n.value.args and norm(n.value.args[0]) == text_param:
                     pats.append(pr)
         if not pats:
             ctx.violation("Q4", ep, "tail-not-covered", "the error parser raises without having tried any pattern on the tail", node=r)
@@ -322,7 +328,7 @@ def q34(ctx, R):
         if isinstance(n, ast.Assign) and isinstance(n.value, ast.Call) and isinstance(n.value.func, ast.Attribute) \
                 and n.value.func.attr == "match" and isinstance(n.targets[0], ast.Name):
             pr = R.pattern_of(n.value.func.value, ep)
-            if not pr or not n.value.args or not (isinstance(n.value.args[0], ast.Name) and n.value.args[0].id == text_param):
+            if not pr or not n.value.args or norm(n.value.args[0]) != text_param:
                 continue
             mvar = n.targets[0].id
             uses = [u for u in walk_no_nested(ep.node) if isinstance(u, ast.Attribute) and isinstance(u.value, ast.Name)
@@ -466,6 +472,85 @@ def q34(ctx, R):
     # the resp-code and nothing else for well-formed tails  (checked as: pattern group 1, when present, is '(' ... ')')
 
 
+def q10(ctx, R):
+    """Whether the text of a status line is a literal announcement ({n}) is decided on the token as the server sent it: a QUOTED text
+    that happens to read "{5}" is text.  The size pattern must therefore not be applied to a value whose quotes were stripped."""
+    ctx.rule("Q10", "the literal-size pattern is applied to the token as received, not to its unquoted content")
+    n = 0
+    for f in {R.line_reader, R.error_parser} - {None}:
+        for c in walk_no_nested(f.node):
+            if not (isinstance(c, ast.Call) and isinstance(c.func, ast.Attribute) and c.func.attr in ("match", "search", "fullmatch") and c.args):
+                continue
+            pr = R.pattern_of(c.func.value, f)
+            if not pr or proto_kind(pr[1]) != "size":
+                continue
+            n += 1
+            a = c.args[0]
+            altered = None
+            if isinstance(a, ast.Name):
+                for d in walk_no_nested(f.node):
+                    if isinstance(d, ast.Assign) and any(isinstance(t, ast.Name) and t.id == a.id for t in d.targets) and d.lineno < c.lineno:
+                        for x in ast.walk(d.value):
+                            if isinstance(x, ast.Call) and isinstance(x.func, ast.Attribute) and x.func.attr in ("strip", "lstrip", "rstrip", "replace"):
+                                altered = x
+            else:
+                for x in ast.walk(a):
+                    if isinstance(x, ast.Call) and isinstance(x.func, ast.Attribute) and x.func.attr in ("strip", "lstrip", "rstrip", "replace"):
+                        altered = x
+            if altered is not None:
+                ctx.violation("Q10", f, "size-test-on-unquoted-text", "the size pattern is applied to %s, which went through %s: a quoted text "
+                              "that reads like a size is taken for a literal announcement" % (norm(a)[:30], norm(altered)[:40]), node=c,
+                              witness='`NO "{70000+} exceeds the maximum script size"`: the client waits for 70002 octets that never come')
+            else:
+                ctx.holds("Q10", "%s: %s" % (f.qualname, norm(c)[:60]))
+    ctx.need("Q10", "applications of the size pattern", n, 2)
+
+
+def q9(ctx, R):
+    """A SASL exchange written step by step: once a reply carries a status (OK / NO) the exchange is over, and what the client sends
+    next is read by the server as a new command.  A continuation line (a sender call whose command name is not a constant verb)
+    that follows an earlier reply must lie behind the test that this reply was a challenge (its code is None)."""
+    snd = R.sender
+    cont_sites = []
+    for f in R.methods.values():
+        if not f.name.endswith("_authentication") or "digest" in f.name:
+            continue  # (DIGEST-MD5 answers exactly one challenge and is not runnable in this tree: recorded finding U6)
+        calls = sorted([c for c in walk_no_nested(f.node) if isinstance(c, ast.Call) and call_name(c) == snd.name], key=lambda c: c.lineno)
+        if len(calls) < 2:
+            continue
+        cfg = ctx.cfg(f)
+        for i, c in enumerate(calls[1:], 1):
+            name_arg = bound_arg_plain(c, snd, snd.params[1]) if len(snd.params) > 1 else None
+            if name_arg is not None and isinstance(const_value(ctx.program, f, name_arg), str) and const_value(ctx.program, f, name_arg).isupper():
+                continue  # a new command, not a continuation
+            prev = calls[i - 1]
+            st = stmt_of(prev)
+            code_var = None
+            if isinstance(st, ast.Assign) and isinstance(st.targets[0], (ast.Tuple, ast.List)) and st.targets[0].elts \
+                    and isinstance(st.targets[0].elts[0], ast.Name):
+                code_var = st.targets[0].elts[0].id
+            cont_sites.append((f, c))
+            ctx.rule("Q9", "a SASL continuation line is sent only after a reply that was a challenge (no status yet)")
+
+            def was_challenge(fc, code_var=code_var):
+                e, pol = fact_atom(fc)
+                cp = cmp_parts(e)
+                return bool(code_var and cp and isinstance(cp[0], ast.Name) and cp[0].id == code_var and isinstance(cp[2], ast.Constant)
+                            and cp[2].value is None and ((cp[1] == "Is") == pol))
+            nodes = cfg.node_containing(c)
+
+            def rebinds(node, code_var=code_var):
+                from sa.cfg import assigned_names
+                return node.ast is not None and not isinstance(node.ast, (ast.If, ast.While, ast.For, ast.Try)) and code_var in assigned_names(node.ast)
+            if nodes and all(cfg.guarded(x, was_challenge, kill_pred=rebinds) for x in nodes):
+                ctx.holds("Q9", "%s: %s only after a challenge" % (f.qualname, norm(c)[:50]))
+            else:
+                ctx.violation("Q9", f, "continuation-after-status", "%s sends %s although the previous reply may have carried a status: the "
+                              "exchange was over, the server reads the line as a command" % (f.qualname, norm(c)[:50]), node=c,
+                              witness="server answers NO to the user name: the password is sent anyway, and the NO to that stray line is "
+                                      "taken for the result of the next operation")
+
+
 def q7(ctx, R):
     """RFC 5804: everything the server sends is UTF-8.  A reply decoded with a narrower codec makes an operation raise instead of
     returning the server's verdict."""
@@ -483,7 +568,8 @@ def q7(ctx, R):
                 n += 1
                 enc = const_value(prog, f, c.args[0]) if c.args else next(
                     (const_value(prog, f, k.value) for k in c.keywords if k.arg == "encoding"), "utf-8")
-                if enc_ok(enc):
+                own_b64 = isinstance(c.func.value, ast.Call) and call_name(c.func.value) in ("b64encode", "hexlify", "hexdigest")
+                if enc_ok(enc) or own_b64:  # (base64 / hex text produced here is ASCII whatever it encodes: not server data)
                     ctx.holds("Q7", "%s: %s" % (f.qualname, norm(c)[:50]))
                 else:
                     ctx.violation("Q7", f, "reply-codec:%s" % enc, "%s decodes server data as %r" % (f.qualname, enc), node=c,
